@@ -20,6 +20,7 @@ import drive_datafile as dd
 
 THEOREMS = ['RB.Loader.c09_load_total', 'RB.Loader.c09_load_after_any_prefix']
 VARIANT = os.environ.get('VERIF_MODEL_VARIANT', 'repaired')
+PROFILE_JSON = os.environ.get('VERIF_C09_PROFILE_JSON', 'checked')   # development: 'any' = loader without the JSON check
 
 
 # ------------------------------------------------------------------ scenarios
@@ -31,6 +32,8 @@ def gen_params(rng, idx):
         {'benchmarks': ['B', 'C', 'D'], 'old': ['B'], 'invocations': 3, 'iterations': 1, 'crits': 2},
         # three data points per invocation, no extra criteria
         {'benchmarks': ['B7', 'C'], 'old': ['C'], 'invocations': 2, 'iterations': 3, 'crits': 0},
+        # a profile data file: one line per invocation, run id in the column before the JSON column
+        {'benchmarks': ['B', 'C'], 'old': ['B'], 'invocations': 2, 'iterations': 1, 'crits': 0, 'profile': True},
     ]
     if idx < len(fixed):
         return fixed[idx]
@@ -39,6 +42,9 @@ def gen_params(rng, idx):
     old = [b for b in names if rng.random() < 0.4]
     if len(old) == len(names):
         old = old[:-1]
+    if rng.random() < 0.25:
+        return {'benchmarks': names, 'old': old, 'invocations': rng.randint(1, 3), 'iterations': 1, 'crits': 0,
+                'profile': True}
     return {'benchmarks': names, 'old': old, 'invocations': rng.randint(1, 3),
             'iterations': rng.randint(1, 3), 'crits': rng.randint(0, 2)}
 
@@ -49,7 +55,9 @@ class Base(object):
     def __init__(self, wd, params):
         self.params = params
         shutil.rmtree(wd, ignore_errors=True)
-        self.scn = dd.Scenario(wd, params['benchmarks'], params['invocations'], params['iterations'], params['crits'])
+        self.profile = bool(params.get('profile'))
+        self.scn = dd.Scenario(wd, params['benchmarks'], params['invocations'], params['iterations'], params['crits'],
+                               profile=self.profile)
         scn = self.scn
         self.problems = []
         if params['old']:
@@ -75,10 +83,10 @@ class Base(object):
         want = set()
         seen_data = False
         for d in self.lines:
-            if d['kind'] in ('bench_meta', 'run_meta', 'meas') and not seen_data:
+            if d['kind'] in ('bench_meta', 'run_meta', 'meas', 'prof') and not seen_data:
                 seen_data = True
                 want.add(d['start'])          # end of the session block (and header)
-            if d['kind'] == 'meas' and d['crit'] == 'total':
+            if (d['kind'] == 'meas' and d['crit'] == 'total') or d['kind'] == 'prof':
                 want.add(d['end'])
         self.flush_offsets = sorted(set(self.flushes))
         if set(self.flushes) != want:
@@ -119,7 +127,7 @@ def classify_cut(base, k):
             return 'boundary:mid_data_point'
         if prev['kind'] == 'meas' and nxt['kind'] == 'meas' and (prev['inv'], prev['run_col']) == (nxt['inv'], nxt['run_col']):
             return 'boundary:between_data_points_of_invocation'
-        if prev['kind'] == 'meas':
+        if prev['kind'] in ('meas', 'prof'):
             return 'boundary:after_invocation'
         return 'boundary:after_' + prev['kind']
     for d in lines:
@@ -127,10 +135,11 @@ def classify_cut(base, k):
             kind = d['kind']
             if kind in ('bench_meta', 'run_meta'):
                 return 'inside:metadata_line' + (':at_end' if k == d['end'] - 1 else '')
-            if kind == 'meas':
+            if kind in ('meas', 'prof'):
                 nf = app[d['start']:k].count('\t')
                 at_field_end = app[k] in '\t\n'
-                return 'inside:measurement_line:field%d%s' % (nf, ':complete' if at_field_end else '')
+                return 'inside:%s_line:field%d%s' % ('measurement' if kind == 'meas' else 'profile', nf,
+                                                     ':complete' if at_field_end else '')
             return 'inside:%s_line' % kind
     return 'inside:unknown'
 
@@ -165,10 +174,12 @@ def cut_points(base, rng, tier, n_random):
         seen_kinds[key] = c + 1
         s, e = d['start'], d['end']
         cuts.update([s + 1, (s + e) // 2, e - 1])   # just inside, middle, everything but the newline
-        if d['kind'] == 'meas':
+        if d['kind'] in ('meas', 'prof'):
             for i in range(s, e):
                 if app[i] == '\t':
                     cuts.update([i, i + 1])        # after every field, and after every separator
+            if d['kind'] == 'prof':
+                cuts.update([e - 6, e - 3])       # inside the JSON column
         if d['kind'] in ('bench_meta', 'run_meta'):
             eq = app.index('=', s)
             cuts.update([eq, eq + 1, eq + 2, s + 5, s + 12, s + 14])
@@ -208,7 +219,10 @@ def model_op(base, text):
         b = obj['cmdline'].split()[-1]
         return names.index(b) if b in names else 99
     bp, rp = dd.payload_tables(lines, key_of_bench, key_of_run)
-    op = {'op': 'c09.load', 'text': text, 'hdr': dd.HDR, 'variant': VARIANT,
+    prof = None
+    if base.profile:
+        prof = 'any' if PROFILE_JSON == 'any' else sorted(set(d['json'] for d in lines if d['kind'] == 'prof'))
+    op = {'op': 'c09.load', 'text': text, 'hdr': dd.HDR, 'variant': VARIANT, 'profile_json': prof,
             'bench_payloads': bp, 'run_payloads': rp,
           'cfg': [[i, i, base.params['invocations'], base.params['iterations']] for i in range(len(names))]}
     if VARIANT.startswith('custom:'):  # development: e.g. custom:1,0,0 = only the first repair
@@ -227,7 +241,7 @@ def complete_dps(text, starts):
     lines, right criterion and benchmark) in the text.  -> dict (start n, dp index) -> [line dicts]"""
     by_serial = {}
     for d in dd.parse_file(text):
-        if d['kind'] == 'meas' and d['terminated'] and d['serial'] is not None:
+        if d['kind'] in ('meas', 'prof') and d['terminated'] and d['serial'] is not None:
             by_serial.setdefault(d['serial'], []).append(d)
     out = {}
     for st in starts:
@@ -242,6 +256,23 @@ def complete_dps(text, starts):
             if ls is not None:
                 out[(st['n'], j)] = ls
     return out
+
+
+def serial_of(base, v):
+    """the serial number a loaded value carries"""
+    if base.profile:
+        import re
+        m = re.search(r'sym(\d+)', str(v))
+        return int(m.group(1)) if m else -1
+    return int(v)
+
+
+def norm_ms(base, ms, side):
+    """measurements of a loaded data point in a comparable form"""
+    if base.profile:
+        # one line = one data point: (number of iterations, the JSON column as text)
+        return [[it, str(v)] for (it, _c, v) in ms]
+    return [[it, c, float(v)] for (it, c, v) in ms]
 
 
 def judge_cut(acc, base, obs, answers, writer=(None, None)):
@@ -274,9 +305,9 @@ def judge_cut(acc, base, obs, answers, writer=(None, None)):
             continue
         if ans['end'] != 'ok':
             continue
-        impl_loaded = [[names.index(b) if b in names else 99, inv, [[it, c, float(v)] for (it, c, v) in ms]]
+        impl_loaded = [[names.index(b) if b in names else 99, inv, norm_ms(base, ms, 'impl')]
                        for (b, _e, inv, ms) in ses['loads']]
-        model_loaded = [[r, inv, [[it, c, float(v)] for (it, c, v) in ms]] for (r, inv, ms) in ans['loaded']]
+        model_loaded = [[r, inv, norm_ms(base, ms, 'model')] for (r, inv, ms) in ans['loaded']]
         if impl_loaded != model_loaded:
             acc.disagree('c09.load: data points handed to loaded_data_point (session %s)' % ses['name'], inp,
                          {'loaded': impl_loaded}, {'loaded': model_loaded}, THEOREMS)
@@ -296,8 +327,21 @@ def judge_cut(acc, base, obs, answers, writer=(None, None)):
     for ses, w in zip(obs['sessions'][:2], writer):
         if w is None:
             continue
-        model_recs, impl = w
+        model_recs, impl, rendered, real_text = w
         impl_recs = list(impl['recs'])
+        acc.count('renderer-compared')
+        if not (rendered['rend_ok'] and rendered['dps_ok'] and rendered['cmd_ok']):
+            acc.disagree('c09.render: the side conditions of the byte-prefix theorem do not hold for this session',
+                         inp, {'cmd': real_text.split('\n')[0]},
+                         {k: rendered[k] for k in ('rend_ok', 'dps_ok', 'cmd_ok')},
+                         ['RB.Loader.c09_load_after_any_byte_prefix_rendered'])
+        if rendered['text'] != real_text:
+            n = min(len(rendered['text']), len(real_text))
+            at = next((x for x in range(n) if rendered['text'][x] != real_text[x]), n)
+            acc.disagree('c09.render: bytes appended by session %s' % ses['name'], inp,
+                         {'at': at, 'text': real_text[max(0, at - 40):at + 60]},
+                         {'at': at, 'text': rendered['text'][max(0, at - 40):at + 60]},
+                         ['RB.Loader.c09_load_after_any_byte_prefix_rendered'])
         if ses['before'] and not ses['before'].endswith('\n') and impl_recs[:1] == ['session']:
             impl_recs = impl_recs[1:]     # the '#!' line is glued to the torn tail
         acc.count('writer-compared')
@@ -316,7 +360,7 @@ def judge_cut(acc, base, obs, answers, writer=(None, None)):
         expected = sorted((starts[n]['bench'], tuple(s for (_c, s) in starts[n]['dps'][j])) for (n, j) in done)
         got = []
         for (b, _e, _inv, ms) in ses['loads']:
-            serials = tuple(int(v) for (_it, _c, v) in ms)
+            serials = tuple(serial_of(base, v) for (_it, _c, v) in ms)
             got.append((b, serials))
             owners = set(sidx.get(s) for s in serials)
             if len(owners) > 1:
@@ -348,7 +392,7 @@ def judge_cut(acc, base, obs, answers, writer=(None, None)):
                 acc.count('invocation-incomplete')
 
 
-def process(params, wd, cuts, model_fn):
+def process(params, wd, cuts, model_fn, timing=None):
     """evaluate the given cuts (None = decide here) of one scenario; returns an Acc"""
     acc = dd.Acc()
     base = Base(wd, params)
@@ -375,7 +419,9 @@ def process(params, wd, cuts, model_fn):
     wans = batched(model_fn, wops)
     writer = {}
     for n, (i, j) in enumerate(wmeta):
-        writer[(i, j)] = (wans[2 * n], wans[2 * n + 1])
+        before = obs[i]['sessions'][j]['before']
+        after = obs[i]['sessions'][j + 1]['before']
+        writer[(i, j)] = (wans[3 * n], wans[3 * n + 1], wans[3 * n + 2], after[len(before):])
     for i, o in enumerate(obs):
         judge_cut(acc, base, o, answers[3 * i:3 * i + 3], [writer.get((i, 0)), writer.get((i, 1))])
     return acc, base
@@ -403,13 +449,30 @@ def writer_ops(base, o, ses, ans, after):
         if not plan.get(r):
             return None          # reported by the comparison of started invocations
         inv = plan[r].pop(0)
+        if base.profile:
+            # one line per invocation: numIterations = 1, the JSON column as the real file has it
+            js = [d['json'] for d in dd.parse_file(after) if d['kind'] == 'prof' and d['serial'] == st['dps'][0][0][1]]
+            if len(js) != 1:
+                return None
+            dps.append([r, r, inv, 1, [], js[0]])
+            continue
         for it, dp in enumerate(st['dps']):
             dps.append([r, r, inv, it + 1, [[c, '%d.000000' % s] for (c, s) in dp[:-1]], '%d.000000' % dp[-1][1]])
     op1 = {'op': 'c09.session', 'benches': ans['benches'], 'runs': ans['runs'],
            'glued': bool(before) and not before.endswith('\n'), 'empty': before == '', 'dps': dps}
     op2 = model_op(base, after[len(before):])
     op2['want_recs'] = True
-    return [op1, op2]
+    # text level: the bytes the model's renderer writes for the same session
+    app = after[len(before):]
+    alines = app.split('\n')
+    bp, rp = dd.payload_tables(dd.parse_file(after), lambda o: names.index(o['name']) if o['name'] in names else 99,
+                               lambda o: names.index(o['cmdline'].split()[-1]) if o['cmdline'].split()[-1] in names else 99)
+    op3 = {'op': 'c09.render', 'benches': ans['benches'], 'runs': ans['runs'], 'empty': before == '',
+           'cmd': alines[0][2:], 'hdr': dd.HDR, 'comments': alines[1:4], 'dps': dps, 'profile': base.profile,
+           'cols': [[i, [b, 'E', 'S', '', '1', '', '', '', '']] for i, b in enumerate(names)],
+           'units': [['total', 'ms']] + [['c%d' % c, 'kb'] for c in range(3)],
+           'bench_json': [[k, pj] for (pj, k) in bp], 'run_json': [[k, bid, pj] for (pj, k, bid) in rp]}
+    return [op1, op2, op3]
 
 
 def _worker(args):
@@ -469,7 +532,7 @@ def run(ck):
                       'model variant compared: ' + VARIANT]
     run_corpus(ck)
     if quick:
-        n_scn = 3
+        n_scn = 4
         for i in range(n_scn):
             params = gen_params(ck.rng, i)
             rng = ck.rng
@@ -479,7 +542,7 @@ def run(ck):
             ck.count('scenario')
             ck.count('appended-bytes', len(base.appended))
     else:
-        n_scn = 6
+        n_scn = 14
         nshards = min(14, max(1, (os.cpu_count() or 2) - 2))
         jobs = []
         for i in range(n_scn):
